@@ -175,8 +175,86 @@ def rule_initial(chk, fb):
                    key="%s:initial-table%s" % (r, ":copied-from-loaded-table" if from_wb else ""))
 
 
+def rule_table_choice(chk, fb, prefix="C12"):
+    """The loaded table may be copied only because a raw sheet needs its indexes — and then it MUST be copied:
+    the branch that copies is taken exactly when some sheet is still raw."""
+    from kernel import Interp, NotKernel, show
+
+    rt = chk.rule(
+        prefix + ".b.choice",
+        "table choice follows the raw sheets: the save starts from a copy of the loaded string table exactly when some sheet is not deserialised (whose raw XML holds indexes into it), and from an empty table otherwise",
+        floor=1,
+    )
+    for r in save_roots(fb):
+        b = fb.mir[r]
+        fl = Flow(fb, b)
+        cfg = CFG(b)
+        for bi, t in fl.calls(lambda t: t.get("fn") in NEW):
+            # definitions of the argument: which blocks assign it from a clone of workbook state / from default
+            arg = t["args"][0]
+            if "p" not in arg:
+                continue
+            defs = fl.defs.get(arg["p"]["l"], [])
+            clone_blocks = [d[1] for d in defs if d[0] == "call" and d[3].get("fn", "").endswith("::clone")]
+            fresh_blocks = [d[1] for d in defs if d[0] == "call" and (d[3].get("fn", "").endswith("::default") or d[3].get("fn", "").endswith("::new"))]
+            if not clone_blocks or not fresh_blocks:
+                continue
+            # the controlling switch
+            deps_c = cfg.control_deps_transitive(clone_blocks[0])
+            deps_f = cfg.control_deps_transitive(fresh_blocks[0])
+            common = [x for x in deps_c if x in deps_f and deps_c[x] != deps_f[x]]
+            if not common:
+                chk.ob(rt, "%s:choice" % r, False, where=fb.loc(r), detail="could not find the branch that selects between copy and empty table")
+                continue
+            sw = common[0]
+            swt = b["blocks"][sw]["t"]
+            # polarity: which value of the condition leads to the clone
+            clone_edge = deps_c[sw]
+            clone_on = None
+            for val, tgt in swt["targets"]:
+                if tgt == clone_edge:
+                    clone_on = bool(val)
+            if clone_on is None and swt["otherwise"] == clone_edge:
+                clone_on = not any(v == 1 for v, _ in swt["targets"]) if swt["targets"] else True
+                if all(v == 0 for v, _ in swt["targets"]):
+                    clone_on = True
+            # the quantifier and the predicate
+            at = fl.atoms(swt["op"])
+            q = [a for a in at if a[0] == "call" and a[1].split("::")[-1] in ("any", "all")]
+            if not q:
+                chk.ob(rt, "%s:choice" % r, False, where="%s:%s" % (b["file"], swt["ln"]), detail="the selecting condition is not a quantifier over the sheets")
+                continue
+            quant = q[0][1].split("::")[-1]
+            qt = b["blocks"][q[0][2]]["t"]
+            clos = [x[1] for a_ in qt["args"][1:] for x in fl.atoms(a_) if x[0] == "cfn"]
+            pred = None
+            if clos and clos[0] in fb.mir:
+                it = Interp(fb, inline=lambda fn: False)
+                try:
+                    cb = fb.mir[clos[0]]
+                    paths = list(it.run(clos[0], [("arg", i + 1) for i in range(cb["argc"])]))
+                    if len(paths) == 1:
+                        ret = paths[0][0]
+                        neg = False
+                        while ret[0] == "not":
+                            neg = not neg
+                            ret = ret[1]
+                        if ret[0] == "call" and ret[1].endswith("is_deserialized"):
+                            pred = "raw" if neg else "deserialized"
+                except NotKernel:
+                    pass
+            # copy condition as a statement about the sheets
+            #   any(raw) & clone_on=True      -> exists raw            OK
+            #   all(des) & clone_on=False     -> not all des = exists raw   OK
+            ok = (quant == "any" and pred == "raw" and clone_on is True) or (quant == "all" and pred == "deserialized" and clone_on is False)
+            chk.touch(r)
+            chk.ob(rt, "%s:choice" % r, ok, where="%s:%s" % (b["file"], swt["ln"]),
+                   detail="the loaded table is copied when %s%s(sheet is %s); required: exactly when some sheet is raw" % ("" if clone_on else "NOT ", quant, pred))
+
+
 def run(chk, fb, tier):
     rule_no_effect(chk, fb, "C12")
     rule_initial(chk, fb)
+    rule_table_choice(chk, fb, "C12")
     chk.assume("std::sync::RwLock / Arc behave as documented; Clone of SharedStringTable is a deep copy (derived)")
     chk.note("residual, by design of the repair: a lazily opened workbook with an unloaded sheet must keep the loaded table (incl. strings no cell uses any more) because raw sheet XML refers to its indexes")
